@@ -12,6 +12,7 @@ PROPS = {}
 PROPS["C17"] = dict(
     level="proof",
     units=[dict(template="units/checksum.rs", slice=["*"])],
+    fallback_searches=["RollingChecksum::new", "RollingChecksum::roll", "FastRollingChecksum::roll"],
     clauses={
         "RollingChecksum::new / FastRollingChecksum::new": "ensures r.wf(data@): a == (sum x_i) mod 65521, b == (sum (n-i) x_i) mod 65521, count == n, for exact (unbounded) sums",
         "roll": "forall windows w with old.wf(w), w[0]==old_byte: final.wf(w[1..] ++ [new_byte])",
@@ -36,6 +37,7 @@ PATH_TRUST = [
 PROPS["C18"] = dict(
     level="proof",
     units=[dict(template="units/reconcile.rs", slice=["*"])],
+    fallback_searches=["reconcile"],
     kani=[
         dict(harness="c18_reconcile_path_is_the_table", repo_fn="src/bin/copia/reconcile.rs reconcile_path",
              desc="forall (a,b,base) in (Fingerprint+absent)^3 with symbolic 32-byte digests: reconcile_path == documented table; 6 reachability covers"),
@@ -60,6 +62,7 @@ PROPS["C18"] = dict(
 PROPS["C19"] = dict(
     level="proof",
     units=[dict(template="units/plan.rs", slice=["*"])],
+    fallback_searches=["glob_match", "build_plan", "is_excluded"],
     kani=[dict(harness="c19_needs_transfer_is_quick_check", repo_fn="src/bin/copia/plan.rs needs_transfer",
                desc="forall (src, dst?) over full u64 x i64: needs_transfer == (dst absent || size differs || mtime differs)")],
     twins=[
@@ -84,7 +87,8 @@ PROPS["C19"] = dict(
 
 PROPS["C15"] = dict(
     level="proof",
-    units=[dict(template="units/plan.rs", slice=["*"])],
+    units=[dict(template="units/plan.rs", slice=["*"], ignore_clauses={"build_plan": [r"plan\.skipped", r"sorted\("]})],
+    fallback_searches=["glob_match", "build_plan", "is_excluded"],
     twins=[dict(name="is_excluded", repo_fn="src/bin/copia/plan.rs is_excluded", quick=3, thorough=60,
                 contract="assumed std::path component grammar behind the R5 shims of is_excluded")],
     clauses={
@@ -98,4 +102,27 @@ PROPS["C15"] = dict(
     not_decided=["--dry-run of `sync -r` returns inside tokio orchestration (run_local/run_remote) that is outside reach: undecided",
                  "'printed actions == performed actions' is a statement about two runs; not decided",
                  "bisync --dry-run: see the world-model unit (added when the bisync units are registered)"],
+)
+
+IO_TRUST = [
+    "std::io::{Read, Seek, Write} (and tokio's AsyncRead/AsyncSeek/AsyncWrite after async erasure R4) through uninterpreted ghost views r_content/r_pos/stream_of; success of a primitive is promised only under the hypothesis io_ok()",
+    "blake3 by contract only: H is a function of the bytes; Hasher::update concatenates; finalize == H(all bytes); blake3::hash(x) == H(x)",
+    "derived PartialEq on StrongHash is structural; thiserror's From<io::Error> for CopiaError maps to CopiaError::Io",
+    "R7 ghost threading: output.write_all(x) => vio_write_all(&mut output, x, Tracked(sink)) whose body is that very call; Ghost(content) names the basis reader's content",
+    "Delta::expected_output_size / bytes_matched / bytes_literal (iterator sums) assumed equal to total_len / cpy / lit of the op list",
+]
+
+PROPS["C05"] = dict(
+    level="proof",
+    units=[dict(template="units/patch.rs", slice=["*"])],
+    fallback_searches=["CopiaSync::patch", "AsyncCopiaSync::patch"],
+    clauses={
+        "CopiaSync::patch / AsyncCopiaSync::patch": "Ok && verify_checksum ==> BLAKE3(bytes written) == delta.checksum, for ANY delta and ANY basis (no precondition on either besides total output < 2^64)",
+        "reads inside the basis": "every read_exact is preceded by seek(Start(offset)); read_exact's contract: Ok ==> bytes came from content[offset, offset+len); Delta::validate Ok <=> every copy end (saturated) <= declared basis_size",
+        "no panic": "every index, cast, += and debug_assert (rule R2: debug_assert => proof obligation) in patch/validate discharged for arbitrary deltas",
+        "Delta::push_*": "whole-view contracts (out/lit/cpy of the entire op list)",
+    },
+    trusted=COMMON_TRUST + IO_TRUST,
+    assumptions=["total declared output length of a delta < 2^64 bytes"],
+    not_decided=["tokio file flush semantics behind `copia patch` (the CLI wrapper is checked under C20's cli unit)"],
 )
